@@ -846,6 +846,7 @@ static int parse_choices(const char* s, uint8_t* out)
     return n;
 }
 
+static int g_cpu_base;
 int vs_main(int argc, char** argv)
 {
     const char* scen = 0; const char* out_path = 0; const char* replay = 0;
@@ -857,6 +858,7 @@ int vs_main(int argc, char** argv)
         if (!strcmp(a, "--scenario")) scen = NEXT;
         else if (!strcmp(a, "--bound")) g_bound = atoi(NEXT);
         else if (!strcmp(a, "--jobs")) jobs = atoi(NEXT);
+        else if (!strcmp(a, "--cpu-base")) g_cpu_base = atoi(NEXT);
         else if (!strcmp(a, "--max-exec")) g_max_exec = strtoull(NEXT, 0, 10);
         else if (!strcmp(a, "--deadline")) deadline_s = atof(NEXT);
         else if (!strcmp(a, "--out")) out_path = NEXT;
@@ -917,7 +919,7 @@ int vs_main(int argc, char** argv)
         pid_t p = fork();
         if (p == 0) {
             if (!vs_param("nopin", 0)) { // all threads of one execution share a core: futex hand-offs stay cheap
-                cpu_set_t cs; CPU_ZERO(&cs); CPU_SET(w % (int)sysconf(_SC_NPROCESSORS_ONLN), &cs);
+                cpu_set_t cs; CPU_ZERO(&cs); CPU_SET((g_cpu_base + w) % (int)sysconf(_SC_NPROCESSORS_ONLN), &cs);
                 sched_setaffinity(0, sizeof cs, &cs);
             }
             worker(w, &slots[2 * w], &slots[2 * w + 1]); _exit(0);
